@@ -40,6 +40,22 @@ def vv_reject(v):
     return v
 
 
+def kv_str(k):
+    # every int / str key is stored as its str() - the validated key is NOT equal to an int raw key
+    if isinstance(k, (int, str)) and not isinstance(k, bool):
+        return str(k)
+    raise TraitError("bad key")
+
+
+def vv_cint(v):
+    # digit strings become ints: the validated value differs from the raw one
+    if type(v) is int:
+        return v
+    if isinstance(v, str) and v.isdigit():
+        return int(v)
+    raise TraitError("bad value")
+
+
 def kv_cint(k):
     try:
         return int(k)
@@ -58,7 +74,7 @@ class Holder(HasTraits):
 
 
 KEY = st.sampled_from([0, 1, 2, "0", "1", "a", "b", {"t": [1]}, None, 1.0, True, {"l": [1]}])
-VAL = st.one_of(st.integers(-2, 5), st.sampled_from(["x", None]))
+VAL = st.one_of(st.integers(-2, 5), st.sampled_from(["x", None, "3", "4"]))
 PAIRS = st.lists(st.tuples(KEY, VAL).map(list), max_size=4)
 OP = st.one_of(
     st.tuples(st.just("set"), KEY, VAL),
@@ -87,7 +103,8 @@ OP = st.one_of(
 
 def strategy(tier):
     return st.fixed_dictionaries({
-        "mode": st.sampled_from(["ident", "coerce", "coerce", "trait", "trait"]),
+        "mode": st.sampled_from(["ident", "coerce", "coerce", "coerce2", "coerce2", "trait", "trait"]),
+        "oneshot": st.booleans(),
         "init": PAIRS,
         "ops": st.lists(OP, min_size=1, max_size=14),
     })
@@ -129,7 +146,7 @@ def run(case, ctx):
     if mode == "trait":
         kval, vval = kv_cint, vv_int
     else:
-        kval, vval = {"ident": kv_ident, "coerce": kv_coerce}[mode], vv_reject
+        kval, vval = {"ident": (kv_ident, vv_reject), "coerce": (kv_coerce, vv_reject), "coerce2": (kv_str, vv_cint)}[mode]
 
     def vpairs(ps):
         out = []
@@ -144,6 +161,7 @@ def run(case, ctx):
         init = dict(vpairs(dec(case["init"])))
     except (TraitError, TypeError):
         init = {}
+    at_delivery = []      # contents of the dict as every notifier saw them when it was called
     raw = []      # events seen by raw notifiers: (tag, removed, added, changed)
     obs = []      # DictChangeEvents seen by the observe handler
     if mode == "trait":
@@ -152,17 +170,26 @@ def run(case, ctx):
 
         def rec1(d, removed, added, changed):
             raw.append(("first", dict(removed), dict(added), dict(changed)))
+            at_delivery.append(dict(d))
 
         def rec2(d, removed, added, changed):
             raw.append(("last", dict(removed), dict(added), dict(changed)))
+            at_delivery.append(dict(d))
         td.notifiers.insert(0, rec1)
         holder.observe(lambda e: obs.append((dict(e.removed), dict(e.added))), "d.items")
         td.notifiers.append(rec2)
         n_rec = 2
     else:
         td = TraitDict(init, key_validator=kval, value_validator=vval)
+
+        def one_shot(d, removed, added, changed):
+            # a notifier that takes itself off the list the first time it is called: the one after it must still be told
+            d.notifiers.remove(one_shot)
+        if case.get("oneshot"):
+            td.notifiers.append(one_shot)
+            ctx.label("one-shot-notifier-ahead")
         td.notifiers.append(lambda d, removed, added, changed:
-                            raw.append(("only", dict(removed), dict(added), dict(changed))))
+                            (raw.append(("only", dict(removed), dict(added), dict(changed))), at_delivery.append(dict(d))))
         n_rec = 1
     model = dict(init)
     interesting = False
@@ -171,7 +198,7 @@ def run(case, ctx):
         k = op[0]
         args = [dec(a) for a in op[1:]]
         before = dict(td)
-        del raw[:], obs[:]
+        del raw[:], obs[:], at_delivery[:]
         what = lambda: "mode=%s op=%r before=%r" % (mode, op, before)
 
         def do_real():
@@ -329,6 +356,10 @@ def run(case, ctx):
             continue
         after = dict(td)
         changed_content = before != after
+        for snap in at_delivery:
+            if snap != after:
+                ctx.fail("events/state-at-delivery", "a notifier was called while the dict held %r; the operation leaves %r (before %r): %s"
+                         % (snap, after, before, what()))
         for tag in ("first", "last", "only"):
             evs = [e[1:] for e in raw if e[0] == tag]
             if tag == "only" and n_rec != 1 or tag != "only" and n_rec == 1:
